@@ -246,6 +246,22 @@ def run(repo, rep, tier):
     # the scaled result is a first-class aggregator: filling or merging it must not change the original
     rep.borrow(repo, "C06", {"R6.2": ("R8.7", "children of h * f are fresh objects (the scaled result shares nothing fillable with h)", 40)},
                keep=lambda f: f.construct.endswith(".__mul__") or f.construct.endswith(".zero"))
+    # structural parameters of h * f are those of h (a constructor argument left to its default silently resets one)
+    from ..builder import structural_missing
+    for c in prims:
+        m = models[c.name]
+        if not m.structural:
+            continue
+        f = repo.own_method(c, "__mul__")
+        dict_fields = [s2 for s2, k in m.slot_kind.items() if k == "dict"] + (["values"] if m.name == "Bag" else [])
+        missing, rf = structural_missing(repo, c, m, f, [f.params[0]], dict_fields)
+        if missing is None:
+            continue
+        r2.ob(not missing, f"{c.name}.__mul__: structural parameters {m.structural} carried over")
+        for pname, node in missing:
+            rep.finding("R8.2", f, node, f"the scaled result's structural parameter `{pname}` does not come from `{f.params[0]}.{pname}` (a constructor "
+                        f"argument left to its default, or never copied): h * f has a different `{pname}` than h, so its bins mean something "
+                        f"else and it can no longer be merged with h", stmt=f"{pname} not carried over by __mul__")
     r6 = rep.rule("R8.6", "a slot that __init__ mirrors into per-element attributes (setattr) is only ever set by __init__", floor=5)
     mirrored_slots(repo, rep, r6, prims, models)
     for c in prims:
